@@ -77,7 +77,8 @@ Definition set_regw (s : cstate) (r : regop) (v : Z) : cstate :=
   mkcs (cs_vars s) ((r, v) :: cs_regw s) (cs_mem s) (cs_jump s) (cs_ret s) (cs_events s).
 
 (* ------------------------------------------------------------------ lvalues / operands *)
-Inductive lval := LVar (x : string) (t : cty) | LReg (r : regop) (t : cty) (fallback : option Z).
+Inductive lval := LVar (x : string) (t : cty) | LReg (r : regop) (t : cty) (fallback : option Z)
+                | LImm (l : string) (t : cty).     (* an immediate operand: a C local initialised from the encoding *)
 
 Definition alias_width (name : string) : N :=
   if existsb (String.eqb name) ["UPCYCLE"; "PKTCOUNT"; "UTIMER"] then 64%N else 32%N.
@@ -96,9 +97,9 @@ Section WithEnv.
             let w := if is_pair_letters l then (w0 * 2)%N else w0 in
             let id := substring 0 1 l in
             let r := RIsa cls id false in
-            (* destination-only operands have no defined value before they are assigned *)
+            (* destination-only operands are C locals initialised to 0 by QEMU's generated helpers *)
             let dest_only := existsb (String.eqb id) ["d"; "e"] in
-            Some (LReg r (true, w) (if dest_only then None else Some (ce_rold E r)))
+            Some (LReg r (true, w) (if dest_only then Some 0 else Some (ce_rold E r)))
         | None => None
         end
     | ONewReg cls l =>
@@ -119,6 +120,7 @@ Section WithEnv.
         let r := RAlias ("HEX_REG_ALIAS_" ++ name)%string new in
         Some (LReg r (false, alias_width name)
                    (Some (if new then ce_rnew0 E r else if String.eqb name "PC" then ce_pktaddr E else ce_rold E r)))
+    | OImm l => Some (LImm l (existsb (String.eqb l) ["r"; "R"; "s"; "S"], 32%N))
     | OIdent x =>
         match lookup x (cs_vars s) with
         | Some (t, _) => Some (LVar x t)
@@ -132,17 +134,21 @@ Section WithEnv.
   Definition read_lval (s : cstate) (l : lval) : option cval :=
     match l with
     | LVar x _ => match lookup x (cs_vars s) with Some (t, Some v) => Some (t, v) | _ => None end
+    | LImm l t => match lookup ("imm:" ++ l)%string (cs_vars s) with
+                  | Some (_, Some v) => Some (t, v)
+                  | _ => Some (mkval t (ce_imms E l)) end
     | LReg r t fb =>
         match lookup_reg r (cs_regw s) with
         | Some v => Some (mkval t v)
         | None => option_map (mkval t) fb
         end
     end.
-  Definition lval_ty (l : lval) : cty := match l with LVar _ t | LReg _ t _ => t end.
+  Definition lval_ty (l : lval) : cty := match l with LVar _ t | LReg _ t _ | LImm _ t => t end.
   Definition write_lval (s : cstate) (l : lval) (v : cval) : cstate :=
     match l with
     | LVar x t => set_var s x (conv t v)
     | LReg r t _ => set_regw s r (snd (conv t v))
+    | LImm l t => set_var s ("imm:" ++ l)%string (conv t v)
     end.
 
   Definition imm_signed_c (l : string) : bool := existsb (String.eqb l) ["r"; "R"; "s"; "S"].
@@ -245,7 +251,7 @@ Section WithEnv.
   Fixpoint ceval (fuel : nat) (s : cstate) (e : cexpr) {struct fuel} : option (cstate * cval) :=
     match fuel with O => None | S k =>
     match e with
-    | EOp (OImm l) => Some (s, mkval (imm_signed_c l, 32%N) (ce_imms E l))
+
     | EOp (ONum v hex suf) => match literal_type v hex suf with Some t => Some (s, mkval t v) | None => None end
     | EOp o => match operand_lval s o with
                | Some l => match read_lval s l with Some v => Some (s, v) | None => None end
